@@ -46,3 +46,11 @@ CONTRACTS.update({
              ('only-compatible-names-in-the-mode', f'implies({FLAG}, hc_name_ok(self.name))')],
     exc_ensures=[('rejected-call-leaves-the-set-unchanged', UNCHANGED)]),
 })
+
+
+def extra_c07(tier, seed, src):
+    from contracts.lemmas import c07_identity_lemmas
+    return {'obligations': c07_identity_lemmas()}
+
+
+EXTRAS = {'C07': extra_c07}
